@@ -12,7 +12,7 @@ import random
 
 import gevent
 
-from sim.world import World
+from sim.world import World, H
 from sim import net
 from harness import session as hs
 from harness import queue as hq
@@ -27,7 +27,9 @@ RULE = ('seeded messages with 1-5 recipients over 1-3 domains through the '
         'optionally while 1-2 other clients\' slow writes occupy the bounded '
         'store pool, '
         'or into a real ProxyQueue over a scripted relay (whole-message or '
-        'per-recipient results); non-trivial = the policy chain produced >= 2 '
+        'per-recipient results); one SMTP scenario in ten runs the edge with '
+        'a size limit below or above the message (552 and nothing written, '
+        'or as before); non-trivial = the policy chain produced >= 2 '
         'envelopes or a write/relay failure was injected; distinct = distinct '
         'event-log digest')
 COMPONENTS = {
@@ -46,7 +48,7 @@ PROBES = ['split>=2', 'split>=3', 'failure-first-write', 'failure-last-write',
           'failure-middle-write', 'slow-write', 'qerr-with-reply',
           'non-queueerror', 'proxy-partial-result', 'proxy-whole-failure',
           'wsgi', 'smtp', 'forward-policy', 'store-pool-bounded',
-          'competing-clients']
+          'competing-clients', 'size-limit-refused', 'size-limit-passed']
 STATES_MEASURE = 'distinct (edge, queue kind, #envelopes, index of failed write, failure kind)'
 STEP_CAP = 200000
 COMPETITOR = 'competitor@c.example'
@@ -97,6 +99,11 @@ def generate(seed, tier='quick'):
             if t == 'seq' and rng.random() < 0.5:
                 spec['as'] = 'tuple'
         scn['relay_spec'] = spec
+    r2 = random.Random(H(seed, 'size'))
+    if scn['edge'] == 'smtp' and r2.random() < 0.1:
+        # a size limit on the edge: 10 refuses this message after the whole
+        # of it was read (552, nothing to write), 1000 lets it through
+        scn['max_size'] = r2.choice([10, 10, 1000])
     return scn
 
 
@@ -374,7 +381,8 @@ def _smtp(world, scn, q, result):
     from slimta.edge.smtp import SmtpEdge
     a, b = net.socketpair(world, 'c02', a_opts={'latency': net.LAT_SMALL},
                           b_opts={'latency': net.LAT_ZERO})
-    edge = SmtpEdge(None, q, hostname='edge.sim')
+    edge = SmtpEdge(None, q, hostname='edge.sim',
+                    max_size=scn.get('max_size'))
     srv = gevent.spawn(edge.handle, b, a.getpeername())
     cl = LineClient(world, a)
     r = cl.read_reply()
@@ -408,6 +416,9 @@ def _smtp(world, scn, q, result):
         return
     result['code'] = r[0]
     result['t_reply'] = world.loop._now
+    if scn.get('max_size'):
+        world.probe('size-limit-refused' if r[0] == '552' else
+                    'size-limit-passed')
     try:
         a.sendall(b'QUIT\r\n')
         cl.read_reply(timeout=5.0)
